@@ -27,6 +27,17 @@ theorem lookup_wf (c t : Nat) : wf (lookup c t).schema = true := by
   · rename_i e he; exact table_wf' e (List.mem_of_find?_eq_some he)
   · split
     · rename_i e he; exact table_wf' e (List.mem_of_find?_eq_some he)
-    · simp [genericEntry, wf, sdwf]
+    · simp [genericEntry, Entry.schema, wf, sdwf]
+
+/-- the as-shipped OPT variant is not a table entry -/
+theorem table_not_shipped : ∀ e ∈ table, e.kind.isShipped = false := by decide
+
+theorem lookup_mem_or_generic (c t : Nat) : lookup c t ∈ table ∨ lookup c t = genericEntry c t := by
+  unfold lookup
+  split
+  · rename_i e he; exact Or.inl (List.mem_of_find?_eq_some he)
+  · split
+    · rename_i e he; exact Or.inl (List.mem_of_find?_eq_some he)
+    · exact Or.inr rfl
 
 end Model
